@@ -460,6 +460,40 @@ pub fn run(ctx: &mut Ctx) {
             }
         }
     }
+    // ---- (c) the limit is per request: pipelined requests whose bodies are each within the limit (some exactly at
+    // it) but together far above it, all arriving in one read, in a few reads, byte by byte
+    let mut idx = 0u64;
+    for l in [1usize, 2, 8, 10, 64, 300] {
+        for k in 2..=5usize {
+            for shape in 0..4usize {
+                idx += 1;
+                if !ctx.mine(idx) {
+                    continue;
+                }
+                let mut s = Vec::new();
+                for j in 0..k {
+                    let n = match shape {
+                        0 => l,
+                        1 => if j == 0 { 1 } else { l },
+                        2 => (l + 1) / 2 + j % 2,
+                        _ => if j + 1 == k { l + 1 } else { l }, // the last one really is over the limit
+                    };
+                    s.extend_from_slice(format!("{} /p{} HTTP/1.1\r\nContent-Length: {}\r\n\r\n", ["PUT", "PATCH", "GET"][j % 3], j, n).as_bytes());
+                    s.extend((0..n).map(|i| b'a' + ((i + j) % 26) as u8));
+                }
+                if s.len() > 1000 && shape != 2 {
+                    // keep at least the first two requests inside one window
+                    ctx.rep.count("pipelined_streams_longer_than_one_window");
+                }
+                ctx.rep.count("pipelined_bodies_within_the_limit_each");
+                for cuts in [vec![], crate::gen::const_cuts(s.len(), 1), crate::gen::const_cuts(s.len(), 37)] {
+                    if crate::props::c02::judge(ctx, &s, l, &cuts, "pipelined bodies, each within the limit", "C04") {
+                        break;
+                    }
+                }
+            }
+        }
+    }
     server_family(ctx);
 }
 
@@ -591,6 +625,11 @@ pub fn replay(ctx: &mut Ctx, case: &J) {
     ctx.only_case = None;
     if case.gs("family") == "server" {
         server_case(ctx, case.gu("l1") as usize, case.gu("l2") as usize, case.gu("declared") as usize, case.gu("expect") == 1);
+        return;
+    }
+    if case.get("family").is_none() && case.get("what").is_some() && case.get("line_kind").is_none() {
+        // a stream judged against the grammar model (pipelined bodies family)
+        crate::props::c02::replay_with(ctx, case, "C04");
         return;
     }
     let cuts: Vec<usize> = case.garr("cuts").iter().filter_map(|c| c.as_u64()).map(|c| c as usize).collect();
